@@ -338,6 +338,11 @@ func c04AlphaPart(run *vx.Run, rng *rand.Rand) {
 		var d string
 		if i%3 == 0 { // the real encoder's lossy+alpha output
 			w, h = 1+rng.Intn(33), 1+rng.Intn(33)
+			if (i/3)%13 == 4 {
+				// very wide, very short pictures: line buffers of the colour conversion that are sized or split by a
+				// fixed width (stack scratch of 2048 pixels, heap fallback above) are crossed, at a cost TLC can still take
+				w, h = 2049+rng.Intn(400), 3+rng.Intn(4)
+			}
 			o := withDefaults(webp.EncoderOptions{Quality: float32(10 + rng.Intn(90)), Method: rng.Intn(7)})
 			o.AlphaCompression, o.AlphaFiltering = rng.Intn(2), rng.Intn(3)
 			file = mustEncode(noiseNRGBA(rng, w, h, 1+rng.Intn(3)), &o)
